@@ -107,7 +107,22 @@ EXTRA = {
  "C19": " Open-ended repetitions {n,} and the same sender addressing two recipients with one message type are generated; completeness of the empty history is judged.",
  "C20": " Peers may pipeline (several remote messages on the wire, fragments of two parties interleaved); directed protocol shapes; message types of which one is a prefix of another; valid remote data must not be rejected (time-out, unexpected party, unparsable) in a fault-free run.",
 }
+EXTRA2 = {
+ "C01": " Families: computed repetitions whose symbol also occurs outside the repetition (with searches long enough for crossover followed by repair), nested equality targets, the same operator nested in itself.",
+ "C02": " Atoms include python expressions (not comparisons) that raise for some matches only.",
+ "C04": " A bracket family (same operator nested in itself, all balanced strings up to 6 characters); bytes regexes with \\w, \\s, (?i), judged with bytes-pattern semantics.",
+ "C05": " Words that Fandango generates but the reference rejects must still be parsed back; non-ASCII text behind binary material.",
+ "C07": " The spec used for API acceptance defines module-level names that coincide with quantifier variables.",
+ "C08": " Non-simple annotated assignments, one-element tuple subscripts, conditional expressions next to and/or/comparisons.",
+ "C10": " Part B includes computed repetitions with siblings behind them; part A includes terminals spelled like nonterminals and 'twin' trees that differ only in the kind of such leaves.",
+ "C12": " Every fifth machine works on a binary spec asked with bytes and with text inputs.",
+ "C13": " Regexes whose complete match can be extended behind a separator; multi-byte text literals inside binary grammars.",
+ "C16": " The direct operator history starts from a parsed tree when the spec's constraints admit one.",
+ "C17": " Existential constraints that fail for several candidates.",
+}
 for k, v in EXTRA.items():
+    CHECKS[k]["text"] += v
+for k, v in EXTRA2.items():
     CHECKS[k]["text"] += v
 
 checks = []
